@@ -120,7 +120,7 @@ CLAIMS = {
         text='PARTIAL. Decides the consumers of inferred integer ranges: at every return that drops an InRange/Mod/Minimum/Maximum/NormDim node (or licenses singular_like, index-ness, non-negative exponents, uniform '
              'constants) the path condition implies, by transitive closure with strictness, the inequality that makes the dropped node the identity; the elementary transfer functions equal interval arithmetic; every '
              'compiled field is an announced dependency; isconstant/arguments overrides are conservative. Soundness of the ~25 non-elementary transfer functions, shape/dtype of every node class and function.Array '
-             'metadata are NOT decided (they need evaluation of the functions, concretely or symbolically - another technique family). The table of elementary transfer functions includes the index-producing nodes (SearchSorted, ArgSort, Find, Range); announced argument tables of the function-level wrappers are computed from the parsed replacement pairs. Announced integer ranges are computed only from the dependencies of the value; rewrites that keep the announced shape fire on certain equality of run-time lengths only.',
+             'metadata are NOT decided (they need evaluation of the functions, concretely or symbolically - another technique family). The table of elementary transfer functions includes the index-producing nodes (SearchSorted, ArgSort, Find, Range); announced argument tables of the function-level wrappers are computed from the parsed replacement pairs. Announced integer ranges are computed only from the dependencies of the value; rewrites that keep the announced shape fire on certain equality of run-time lengths only. The shape announced by each function-level _Wrapper(evaluable.X, ..., shape=S) equals the shape property of X behind the point axes (17 sites, labelled-shape interpretation of both expressions).',
         note='Trusts: CPython ast; the meaning of each dropped node (index in [0,length), a mod b = a, ...); guards written in other algebraic spellings than comparisons of lo/hi terms are not understood and would be reported.',
         design='DESIGN.md section 2, C06'),
     'C05': dict(
